@@ -140,7 +140,8 @@ def build_leaf(spec, pscale=0.0):
             tri = jnp.tril(arr) if lower else jnp.triu(arr)
             sgn = jnp.where(jr.bernoulli(_key(spec, 4), 0.5, (n,)), -1.0, 1.0)
             tri = tri.at[jnp.diag_indices(n)].set(sgn * jnp.diag(arr))
-            obj = eqx.tree_at(lambda a: a.triangular, obj, tri)
+            # a user parameterisation must itself yield a triangular matrix (docstring), also after training
+            obj = eqx.tree_at(lambda a: a.triangular, obj, wrappers.Lambda(jnp.tril if lower else jnp.triu, tri))
     elif k == "Exp":
         obj = B.Exp(shape)
         kw = dict(cod=np.full(shape, RPOS))
@@ -519,3 +520,40 @@ def make_cond(raw, shape):
         return None
     n = int(np.prod(shape)) if len(shape) else 1
     return np.asarray([raw[i % len(raw)] for i in range(n)], FDT).reshape(shape)
+
+
+# ---------------------------------------------------------------------------------------------
+# premade flows
+# ---------------------------------------------------------------------------------------------
+FACTORIES = ["coupling_flow", "masked_autoregressive_flow", "block_neural_autoregressive_flow", "planar_flow",
+             "triangular_spline_flow"]
+
+
+def build_flow(spec, base=None):
+    """spec: factory, dim, cond_dim, invert, layers, transformer, key, pscale, pseed, negative_slope."""
+    from flowjax import flows
+    from flowjax.distributions import StandardNormal
+
+    f = spec["factory"]
+    dim = int(spec["dim"])
+    cond = spec.get("cond_dim")
+    base = StandardNormal((dim,)) if base is None else base
+    kw = dict(base_dist=base, cond_dim=cond, flow_layers=int(spec.get("layers", 2)), invert=bool(spec["invert"]))
+    key = jr.PRNGKey(int(spec.get("key", 0)))
+    if f in ("coupling_flow", "masked_autoregressive_flow"):
+        t = spec.get("transformer")
+        if t is not None:
+            kw["transformer"] = _transformer(t)
+        kw.update(nn_width=int(spec.get("width", 6)), nn_depth=int(spec.get("depth", 1)))
+    elif f == "block_neural_autoregressive_flow":
+        kw.update(nn_depth=int(spec.get("depth", 1)), nn_block_dim=int(spec.get("block_dim", 3)))
+        if spec.get("tight", True):
+            kw["inverter"] = tight_inverter()
+    elif f == "planar_flow":
+        kw["negative_slope"] = spec.get("negative_slope", 0.1)
+        if cond is not None:
+            kw.update(width_size=5, depth=1)
+    elif f == "triangular_spline_flow":
+        kw.update(knots=int(spec.get("knots", 4)), tanh_max_val=float(spec.get("tanh_max_val", 3.0)))
+    flow = getattr(flows, f)(key, **kw)
+    return perturb(flow, float(spec.get("pscale", 0.0)), int(spec.get("pseed", 0)))
